@@ -291,7 +291,10 @@ def check(ctx):
                f"{LETTERS[normal]} is zeroed" if ok else
                f"Plane.{member}: zeroed translation rows {zeroed}, expected "
                f"[{normal}] ({LETTERS[normal]})",
-               key=f"C14.1:{member}:zeroed", zeroed=zeroed)
+               key=f"C14.1:{member}:zeroed", zeroed=zeroed,
+               # (no store of a constant 0 into pose[k, 3] was read at all:
+               # the zeroing is written in another form — no evidence)
+               evidence=bool(zeroed))
         # rotation axis: unit vector with 1 at `normal`
         exps = res.calls("evo.core.lie_algebra.so3_exp")
         ctx.require(len(exps) == 1 and exps[0].data["args"],
